@@ -4,6 +4,7 @@ package main
 // a sequence of Include calls with repeated and primary-data resources.
 
 import (
+	"encoding/json"
 	"math/rand"
 
 	"github.com/mfcochauxlaberge/jsonapi"
@@ -22,6 +23,10 @@ type iEvent struct {
 	Post iState    `json:"post"`
 	Ret  string    `json:"ret"`
 	Step int       `json:"-"`
+	// the final event of a walk (ev = "included-doc"): the document is marshaled; Dup: a type/id pair is
+	// there twice across data and included; Foreign: the primary data is of no kind the library knows
+	Dup     bool `json:"dup"`
+	Foreign bool `json:"foreign"`
 }
 
 func randIncludeCase(rng *rand.Rand, seed int64) dCase {
@@ -31,10 +36,10 @@ func randIncludeCase(rng *rand.Rand, seed int64) dCase {
 	case "one":
 		d.Primary = []dRes{randDocRes(rng, []string{"t1", "t2"}[rng.Intn(2)], "x")}
 	case "many":
-		d.Coll = []string{"resources", "soft", "wrapcol"}[rng.Intn(3)]
+		d.Coll = []string{"resources", "soft", "wrapcol", "resources", "soft", "wrapcol", "resval"}[rng.Intn(7)]
 		for i := rng.Intn(4); i > 0; i-- {
 			typ := "t1"
-			if d.Coll == "resources" && rng.Intn(3) == 0 {
+			if (d.Coll == "resources" || d.Coll == "resval") && rng.Intn(3) == 0 {
 				typ = "t2"
 			}
 			d.Primary = append(d.Primary, randDocRes(rng, typ, ids[i-1]))
@@ -125,6 +130,61 @@ func runIncludeCase(c dCase) []iEvent {
 			}
 		}
 		evs = append(evs, ev)
+	}
+	if c.Final {
+		// what a client receives once the list is built: no pair twice across data and included
+		fin := iEvent{Ev: "included-doc", Coll: c.Doc.Coll, Op: [2]string{"", ""}, Ret: "ok", Step: len(c.Calls)}
+		fin.Pre = state()
+		fin.Post = fin.Pre
+		switch doc.Data.(type) {
+		case nil, jsonapi.Resource, jsonapi.Collection, jsonapi.Identifier, jsonapi.Identifiers:
+		default:
+			fin.Foreign = true
+		}
+		p, _ := catch(func() {
+			url.Params.Fields = map[string][]string{}
+			payload, err := jsonapi.MarshalDocument(doc, url)
+			if err != nil {
+				fin.Ret = "err"
+				return
+			}
+			var top struct {
+				Data     json.RawMessage `json:"data"`
+				Included []struct {
+					Type string `json:"type"`
+					ID   string `json:"id"`
+				} `json:"included"`
+			}
+			if json.Unmarshal(payload, &top) != nil {
+				fin.Ret = "err-invalid-json"
+				return
+			}
+			type pair struct {
+				Type string `json:"type"`
+				ID   string `json:"id"`
+			}
+			var many []pair
+			var one *pair
+			if json.Unmarshal(top.Data, &many) != nil {
+				if json.Unmarshal(top.Data, &one) == nil && one != nil {
+					many = []pair{*one}
+				}
+			}
+			seen := map[pair]bool{}
+			for _, x := range top.Included {
+				many = append(many, pair{x.Type, x.ID})
+			}
+			for _, x := range many {
+				if seen[x] {
+					fin.Dup = true
+				}
+				seen[x] = true
+			}
+		})
+		if p {
+			fin.Ret = "panic"
+		}
+		evs = append(evs, fin)
 	}
 	return evs
 }
